@@ -25,8 +25,8 @@ constexpr int kMaxItems = 10;
 constexpr int kMaxWorkers = 3;
 constexpr int kMaxJoin = 2;
 
-enum ItemKind { I_NEST_START, I_NEST_DISCARD, I_NEST_CONNECT_DISCARD, I_DETACHED, I_FUTURE_AWAIT, I_FUTURE_DROP, I_FUTURE_CANCEL, I_ATTACH_START, I_ATTACH_CANCEL, I_KINDS };
-const char* kItemName[] = {"nest+start", "nest+discard", "nest+connect+discard", "spawn_detached", "future+await", "future+drop", "future+await+cancel", "attach+start", "attach+start+cancel"};
+enum ItemKind { I_NEST_START, I_NEST_DISCARD, I_NEST_CONNECT_DISCARD, I_DETACHED, I_FUTURE_AWAIT, I_FUTURE_DROP, I_FUTURE_CANCEL, I_ATTACH_START, I_ATTACH_CANCEL, I_FUTURE_TVAL, I_KINDS };
+const char* kItemName[] = {"nest+start", "nest+discard", "nest+connect+discard", "spawn_detached", "future+await", "future+drop", "future+await+cancel", "attach+start", "attach+start+cancel", "future<class>+await"};
 
 // a counting allocator handed to spawn_detached / spawn_future: everything it serves must come back to it
 struct AllocCount { long allocs = 0, deallocs = 0, bytes = 0; };
@@ -58,6 +58,24 @@ struct cnt_alloc {
   bool operator!=(const cnt_alloc<U>&) const noexcept { return false; }
 };
 
+// a class-type result whose move constructor throws at the n-th move of the run (n drawn; 0 never): somewhere on the way
+// from the spawned operation into the future's shared state, or out of it again
+struct TvState { long alive = 0, moves = 0, throw_at = 0; bool threw = false; };
+TvState g_tv;
+struct tval_throw { long n; };
+struct TVal {
+  long id;
+  explicit TVal(long i) : id(i) { usim::np_scope np; g_tv.alive++; }
+  TVal(TVal&& o) : id(o.id) {
+    usim::np_scope np;
+    if (g_tv.throw_at && ++g_tv.moves == g_tv.throw_at) { g_tv.threw = true; throw tval_throw{g_tv.moves}; }
+    g_tv.alive++;
+  }
+  TVal(const TVal& o) : id(o.id) { usim::np_scope np; g_tv.alive++; }
+  TVal& operator=(TVal&&) = default;
+  ~TVal() { usim::np_scope np; g_tv.alive--; }
+};
+
 struct SItem {
   int kind = 0;
   int worker = 0;
@@ -85,6 +103,7 @@ struct World {
   volatile int all_done = 0;
   int opener_delay = 0;
   uint64_t first_join_done = 0;
+  bool has_tval = false;
 };
 
 void join_hook(OpRec* r, void* arg) {
@@ -110,6 +129,23 @@ void join_hook(OpRec* r, void* arg) {
     KIT_CHECK(g_ac_detached.allocs == g_ac_detached.deallocs, "c08.join-early", "join completed while %ld spawn_detached operation state(s) were still allocated (the spawned operation had not finished completing)",
               g_ac_detached.allocs - g_ac_detached.deallocs);
   KIT_CHECK(r->channel == CH_VALUE, "c08.join-lost", "join completed with %s instead of value", ch_name(r->channel));
+}
+
+// C04 (cancelled future): the future's receiver is completed with done only after the still-running spawned operation
+// has been asked to stop - the stop callback that cancels a future requests stop on the loser before it hands over.
+void future_cancel_hook(OpRec* r, void* arg) {
+  World* w = (World*)arg;
+  usim::np_scope np;
+  int i = r->a;
+  SItem& it = w->items[i];
+  Gate& g = w->gates[i];
+  if (r->channel != CH_DONE || !it.rec.stop_begin) return;
+  if (!g.started || g.claimed || !g.armed || !g.cb_constructed) return;  // not running, or already completing by itself
+  // v1: the scope's own stop source is a second path; a concurrent request_stop() on it returns before the callbacks have run
+  if (w->stop_call_begin) return;
+  for (int j = 0; j < w->njoin; ++j) if (w->join_kind[j] == 1 && w->join[j].start_begin) return;
+  KIT_CHECK(g.stop_cb_ran, "c04.future-done-before-stop", "cancelled future %d completed with done while its spawned operation was still running and had not been asked to stop", i);
+  usim_probe("cancelled future: loser asked to stop first");
 }
 
 template <class Scope>
@@ -175,6 +211,17 @@ void worker(World* w, Scope* scope, int me) {
         op.destroy();
         break;
       }
+      case I_FUTURE_TVAL: {
+        auto fut = unifex::spawn_future(unifex::then(gate_sender{g}, [](long v) { return TVal{v}; }), *scope);
+        { usim::np_scope np; it.issue_end = seq(); }
+        yields(it.mid);
+        auto snd = unifex::then(std::move(fut), [](TVal v) noexcept { return v.id; });
+        started_op<S, decltype(snd)> op;
+        op.start(&it.rec, S{}, std::move(snd));
+        it.rec.wait();
+        op.destroy();
+        break;
+      }
       case I_FUTURE_DROP: {
         {
           auto fut = (it.pre & 1) ? unifex::spawn_future(gate_sender{g}, *scope, cnt_alloc<std::byte>{}) : unifex::spawn_future(gate_sender{g}, *scope);
@@ -201,7 +248,7 @@ void worker(World* w, Scope* scope, int me) {
 template <class Scope>
 void body_scope(const char* name) {
   World* w;
-  { usim::np_scope np; w = new World(); }
+  { usim::np_scope np; w = new World(); g_tv = TvState{}; g_ac = AllocCount{}; g_ac_detached = AllocCount{}; }  // (a run that ended in a verdict left them as they were)
   constexpr bool v1 = is_v1<Scope>;
   w->nitems = draw_range(1, kMaxItems);
   w->nworkers = draw_range(1, kMaxWorkers);
@@ -211,6 +258,7 @@ void body_scope(const char* name) {
   for (int i = 0; i < w->nitems; ++i) {
     SItem& it = w->items[i];
     int k = draw(v1 ? 9 : 7);
+    if (usim_param_int("tval", 0) && draw(5) == 0) k = I_FUTURE_TVAL;
     it.kind = k;
     it.worker = draw(w->nworkers);
     it.pre = draw_small(8);
@@ -219,6 +267,11 @@ void body_scope(const char* name) {
     it.rec.a = i;
     it.rec.oracle_double = "c08.double";
     it.rec.stop = &it.stop;
+    if (k == I_FUTURE_TVAL) {
+      if (g_tv.throw_at >= 0 && !w->has_tval) { w->has_tval = true; g_tv.throw_at = draw(6); }  // one per run: the move counter is global
+      else { k = I_FUTURE_AWAIT; it.kind = k; it.rec.what = kItemName[k]; }
+    }
+    if (k == I_FUTURE_CANCEL) { it.rec.hook = &future_cancel_hook; it.rec.hook_arg = w; }
     Gate& g = w->gates[i];
     g.id = i;
     int o = draw(6);
@@ -320,7 +373,7 @@ void body_scope(const char* name) {
     for (int i = 0; i < w->nitems; ++i) {
       SItem& it = w->items[i];
       Gate& g = w->gates[i];
-      bool has_rec = it.kind == I_NEST_START || it.kind == I_ATTACH_START || it.kind == I_ATTACH_CANCEL || it.kind == I_FUTURE_AWAIT || it.kind == I_FUTURE_CANCEL;
+      bool has_rec = it.kind == I_FUTURE_TVAL || it.kind == I_NEST_START || it.kind == I_ATTACH_START || it.kind == I_ATTACH_CANCEL || it.kind == I_FUTURE_AWAIT || it.kind == I_FUTURE_CANCEL;
       if (it.threw) {
         // the exception left the scope as if the item had never been issued (the joins above did complete; leaks are the arena's business)
         KIT_CHECK(!g.started, "c09.throw-started", "issuing work %d (%s) threw, yet its operation was started", i, kItemName[it.kind]);
@@ -357,9 +410,19 @@ void body_scope(const char* name) {
           else KIT_CHECK(it.rec.channel == CH_DONE, "c08.started-after-close", "refused nest-sender %d completed with %s, not done", i, ch_name(it.rec.channel));
         } else {
           // futures: the operation's value/error, or done (op done, scope closed, or cancelled before the result was available)
+          bool scope_stop_path = false;  // v1: cleanup()/request_stop() cancel pending futures (done), whatever the operation does later
+          if constexpr (v1) {
+            if (w->stop_call_begin && w->stop_call_begin < it.rec.done_seq) scope_stop_path = true;
+            for (int j = 0; j < w->njoin; ++j)
+              if (w->join_kind[j] == 1 && w->join[j].start_begin && w->join[j].start_begin < it.rec.done_seq) scope_stop_path = true;
+          }
+          if (it.kind == I_FUTURE_TVAL && g_tv.threw && !(scope_stop_path && it.rec.channel == CH_DONE))
+            KIT_CHECK(it.rec.channel == CH_ERROR, "c09.outcome", "future %d: moving the spawned operation's value threw (move #%ld), yet the future yielded %s instead of the exception", i, g_tv.moves, ch_name(it.rec.channel));
           if (it.rec.channel == CH_VALUE) {
             KIT_CHECK(g.delivered == CH_VALUE && it.rec.value == g.payload, "c09.outcome", "future %d yielded value %ld but the spawned operation delivered %s %ld", i, it.rec.value, ch_name(g.delivered), g.payload);
             usim_probe("future yielded the operation's value");
+          } else if (it.rec.channel == CH_ERROR && it.kind == I_FUTURE_TVAL && g_tv.threw) {
+            usim_probe("future<class>: a throwing move surfaced as the future's error");
           } else if (it.rec.channel == CH_ERROR) {
             KIT_CHECK(g.delivered == CH_ERROR, "c09.outcome", "future %d yielded an error but the spawned operation delivered %s", i, ch_name(g.delivered));
           } else {
@@ -427,6 +490,8 @@ void body_scope(const char* name) {
     if (g_ac.allocs) usim_probe("spawn allocator pairing checked");
     g_ac = AllocCount{};
     g_ac_detached = AllocCount{};
+    KIT_CHECK(g_tv.alive == 0, "c09.value-lifetime", "%ld class-type future value(s) %s after the scope and every future were gone", g_tv.alive < 0 ? -g_tv.alive : g_tv.alive, g_tv.alive < 0 ? "destroyed without having been constructed" : "still alive");
+    g_tv = TvState{};
   }
   { usim::np_scope np; delete w; }
 }
